@@ -439,8 +439,13 @@ def check_grid(case, ctx):
     ctx.check(bad is None, 'grid/weight-index', 'GridWeighted.grid[%s] does not carry that grid point\'s own weight '
               '(flat index j + i*cols of the weight vector)' % (bad,), what='grid-weight')
     W2 = [rng.uniform(0.2, 5) for _ in range(npts)]
+    gr_kept = [[list(p) for p in row] for row in gr]
     g.weight = list(W2)
     gr2 = g.grid
+    # the grid handed out for the first weights is the caller's: it still carries THOSE weights (not emptied, not refilled in place)
+    ctx.check(len(gr) == len(gr_kept) and all(len(a) == len(b) and all(close(x, y) for x, y in zip(a, b)) for a, b in zip(gr, gr_kept)),
+              'grid/kept-result-rewritten', 'the weighted grid returned earlier was emptied / refilled in place by a later weight '
+              'assignment (it no longer carries the weights it was generated with)', what='grid-weight')
     ok = all(close(gr2[i][j], [c * W2[j + i * cols] for c in base[i][j]] + [W2[j + i * cols]]) for i in range(rows) for j in range(cols))
     ctx.check(ok, 'grid/stale-after-reweight', 'grid read after a second weight assignment still shows the old weights',
               what='grid-weight')
